@@ -414,6 +414,36 @@ fn main() {
             });
         }
     });
+    // degenerate shapes: empty populations reaching the evaluator / the operators
+    {
+        use mahf::components::{initialization, mutation, replacement, selection};
+        let v = Variants { rep: &rep, pools: &pools, nonces, what: "degenerate" };
+        let shapes: Vec<(&str, Configuration<Real>)> = vec![
+            ("Empty; evaluate; update_best", Configuration::builder().do_(initialization::Empty::new()).evaluate().update_best_individual().build()),
+            ("RandomSpread(0); evaluate; update_best", Configuration::builder().do_(initialization::RandomSpread::new(0)).evaluate().update_best_individual().build()),
+            (
+                "RandomSpread(4); evaluate; while 3 { None; NormalMutation; evaluate; Merge }",
+                Configuration::builder()
+                    .do_(initialization::RandomSpread::new(4))
+                    .evaluate()
+                    .while_(mahf::conditions::LessThanN::iterations(3), |b| b.do_(selection::None::new()).do_(mutation::NormalMutation::new_dev(0.1)).evaluate().do_(replacement::Merge::new()))
+                    .build(),
+            ),
+            (
+                "RandomSpread(1); evaluate; while 4 { All; NormalMutation; evaluate; MuPlusLambda(1) }",
+                Configuration::builder()
+                    .do_(initialization::RandomSpread::new(1))
+                    .evaluate()
+                    .while_(mahf::conditions::LessThanN::iterations(4), |b| b.do_(selection::All::new()).do_(mutation::NormalMutation::new_dev(0.1)).evaluate().do_(replacement::MuPlusLambda::new(1)))
+                    .build(),
+            ),
+        ];
+        for (label, cfg) in &shapes {
+            for seed in 0..3u64 {
+                v.check(label, json!({"instance": templates::real_instance_desc(1)}), cfg, &templates::real_instance(1), rep.seed * 31 + seed, false);
+            }
+        }
+    }
     experiments(&rep, &pools);
     if rep.counter("parallel_runs") == 0 {
         rep.inconclusive("no parallel run executed");
